@@ -15,19 +15,20 @@ import (
 
 // ModelCfg is one TLC configuration of Chain.tla.
 type ModelCfg struct {
-	Name     string
-	N        int
-	Works    string
-	Flaws    string
-	Headers  bool
-	Manual   int
-	Flush    bool
-	Dups     bool
-	MaxPaths int  // 0 = cover every transition
-	Graph    bool // dump graph and replay (false: TLC only)
-	Workers  int
-	Crash    bool // replay = crash-point enumeration of the path as a workload (C04)
-	Nested   bool // also crash every recovery
+	Name      string
+	N         int
+	Works     string
+	Flaws     string
+	Headers   bool
+	Manual    int
+	Flush     bool
+	Dups      bool
+	MaxPaths  int  // 0 = cover every transition
+	Graph     bool // dump graph and replay (false: TLC only)
+	Workers   int
+	Catalogue bool // flawed blocks draw their rule from the catalogue, valid blocks sit on limits (C01)
+	Crash     bool // replay = crash-point enumeration of the path as a workload (C04)
+	Nested    bool // also crash every recovery
 }
 
 func b2s(b bool) string {
@@ -96,7 +97,7 @@ func replayPath(ctx *vrun.Ctx, prop string, f *Factory, path []tlc.Step, cache u
 		return err
 	}
 	defer node.Close()
-	rec := &pathReplay{Scenario: f.String(), Seed: fseed, Cache: cache}
+	rec := &pathReplay{Scenario: f.String() + fmt.Sprintf(" rules=%v", f.RuleName[1:]), Seed: fseed, Cache: cache}
 	prevChain := []int{0}
 	viol := func(key, what string) {
 		ctx.Violation(key, what, rec)
@@ -343,8 +344,19 @@ func RunModel(ctx *vrun.Ctx, prop string, m ModelCfg, timeout time.Duration) err
 				h = h*131 + int64(c)
 			}
 			e.seed = ctx.Seed*1000003 + h
-			e.f = NewFactory(sc, NetOpts{Maturity: 1, BIP34: false}, e.seed)
+			if m.Catalogue {
+				e.f = NewFactory(sc, NetOpts{Maturity: 2, BIP34: false}, e.seed)
+				e.f.Catalogue = true
+				e.f.Preamble(5)
+			} else {
+				e.f = NewFactory(sc, NetOpts{Maturity: 1, BIP34: false}, e.seed)
+			}
 			e.f.BuildAll()
+			for b := 1; b <= sc.N; b++ {
+				if e.f.RuleName[b] != "" {
+					ctx.AddExtra("rule:"+e.f.RuleName[b], 1)
+				}
+			}
 		})
 		return e.f, e.seed
 	}
